@@ -279,7 +279,8 @@ func checkC43(r *mon.Run) {
 			}
 		}
 	}
-	r.Require(int64(nExpr)*10, 200, "eval_true", "eval_false", "print_parse", "api_eval")
+	c43ConcurrentPhase(r)
+	r.Require(int64(nExpr)*10, 200, "eval_true", "eval_false", "print_parse", "api_eval", "concurrent_eval")
 }
 
 // c43BuildAPI constructs the expression through pktcls's exported types.
